@@ -36,11 +36,24 @@ class Uninterpretable(AnalysisError):
 class InterpRaise(Exception):
     """A `raise` (or a modelled runtime error) inside interpreted supp code."""
 
-    def __init__(self, exc_name, msg='', node=None):
+    def __init__(self, exc_name, msg='', node=None, attrs=None, value=None):
         Exception.__init__(self, '%s: %s' % (exc_name, msg))
         self.exc_name = exc_name
         self.msg = msg
         self.node = node
+        self.attrs = attrs or {}
+        self.value = value        # the raised object when it is an interpreted instance
+
+
+class ExcVal(object):
+    """The object bound by `except X as e` for a modelled exception."""
+    def __init__(self, exc_name, msg, attrs):
+        self.exc_name = exc_name
+        self.msg = msg
+        self.attrs = dict(attrs)
+
+    def __repr__(self):
+        return '%s(%r)' % (self.exc_name, self.msg)
 
 
 class _Return(Exception):
@@ -149,6 +162,11 @@ class AstClass(object):
 
     def __repr__(self):
         return 'ast.%s' % self.name
+
+
+class ExcClassVal(object):
+    def __init__(self, name):
+        self.name = name
 
 
 class OpaqueType(object):
@@ -260,6 +278,7 @@ class Interp(object):
         self.memoise_cached = False
         self.nodevisitor_model = False
         self.guarded_getattr = 0
+        self.current_exc = None
         self.fs = None             # concrete fake file system (set of paths) or None = symbolic
 
     # ---- path exploration ------------------------------------------------
@@ -466,15 +485,30 @@ class Interp(object):
         elif kwargs:
             raise InterpRaise('TypeError', '%s() got unexpected keyword %r' % (fv.name, sorted(kwargs)[0]))
         frame = Frame(fv.rel, genv, local, fv.closure, fv)
+        gen = not isinstance(node, ast.Lambda) and _is_generator(node)
+        if gen:
+            frame.yielded = []      # generators are run eagerly: sound for the side-effect-free ones of supp
         self.call_depth += 1
         try:
             if isinstance(node, ast.Lambda):
                 return self.eval(node.body, frame)
             self.exec_block(node.body, frame)
         except _Return as r:
-            return r.value
+            return frame.yielded if gen else r.value
         finally:
             self.call_depth -= 1
+        return frame.yielded if gen else None
+
+    def e_Yield(self, e, f):
+        if getattr(f, 'yielded', None) is None:
+            raise Uninterpretable('yield outside an interpreted generator')
+        f.yielded.append(self.eval(e.value, f) if e.value is not None else None)
+        return None
+
+    def e_YieldFrom(self, e, f):
+        if getattr(f, 'yielded', None) is None:
+            raise Uninterpretable('yield from outside an interpreted generator')
+        f.yielded.extend(self.iterate(self.eval(e.value, f)))
         return None
 
     # ---- attribute access ----------------------------------------------------
@@ -563,6 +597,17 @@ class Interp(object):
         if isinstance(v, (list, dict, set, str, tuple)):
             return Native('%s.%s' % (type(v).__name__, attr),
                           lambda it, a, k, _v=v, _a=attr: it.native_method(_v, _a, a, k))
+        if isinstance(v, ExcVal):
+            if attr in v.attrs:
+                return v.attrs[attr]
+            if attr == '__class__':
+                return ExcClassVal(v.exc_name)
+            if attr == 'args':
+                return (v.msg,)
+            raise InterpRaise('AttributeError', '%s has no attribute %r' % (v.exc_name, attr), node)
+        if isinstance(v, ExcClassVal):
+            if attr == '__name__':
+                return v.name
         if isinstance(v, Unknown):
             raise Uninterpretable('attribute %r of %r' % (attr, v))
         if v is None:
@@ -583,6 +628,13 @@ class Interp(object):
             self.on_setattr(v, attr, value)
 
     def native_method(self, v, attr, args, kwargs):
+        try:
+            return self._native_method(v, attr, args, kwargs)
+        except (IndexError, KeyError, ValueError) as e:
+            # the concrete container/str method raises: that is the interpreted program's exception, not ours
+            raise InterpRaise(type(e).__name__, str(e))
+
+    def _native_method(self, v, attr, args, kwargs):
         args = [self.iterate(a) if isinstance(a, Obj) and a.cls.lookup('__iter__') is not None
                 and attr in ('update', 'extend', 'difference', 'union') else a for a in args]
         if isinstance(v, (list, set, dict)) and attr in ('append', 'add', 'extend', 'update', 'insert',
@@ -807,6 +859,10 @@ class Interp(object):
             return v
         if isinstance(v, Obj) and '__strval__' in v.attrs:
             return v.attrs['__strval__']
+        if isinstance(v, ExcVal):
+            return v.msg
+        if isinstance(v, (int, float, bool, tuple)) or v is None:
+            return str(v)
         raise Uninterpretable('str(%r)' % (v,))
 
     def nat_repr(self, args, kwargs):
@@ -1235,8 +1291,13 @@ class Interp(object):
                     if h.type is None or e.exc_name in names or 'Exception' in names or 'BaseException' in names \
                             or (e.exc_name in ('KeyError', 'IndexError') and 'LookupError' in names):
                         if h.name:
-                            f.store(h.name, Unknown('exception'))
-                        self.exec_block(h.body, f)
+                            f.store(h.name, e.value if e.value is not None else ExcVal(e.exc_name, e.msg, e.attrs))
+                        saved = self.current_exc
+                        self.current_exc = e
+                        try:
+                            self.exec_block(h.body, f)
+                        finally:
+                            self.current_exc = saved
                         break
                 else:
                     raise
@@ -1249,10 +1310,27 @@ class Interp(object):
 
     def s_Raise(self, st, f):
         name = 'Exception'
+        msg = unparse(st.exc) if st.exc else ''
         if st.exc is not None:
             e = st.exc
             name = unparse(e.func if isinstance(e, ast.Call) else e).split('.')[-1]
-        raise InterpRaise(name, unparse(st.exc) if st.exc else '', st)
+            if isinstance(e, ast.Call) and e.args:
+                try:
+                    v = self.eval(e.args[0], f)
+                    if isinstance(v, str):
+                        msg = v
+                except Uninterpretable:
+                    pass
+            if isinstance(e, ast.Name):
+                try:
+                    v = f.lookup(self, e.id)
+                    if isinstance(v, ExcVal):
+                        raise InterpRaise(v.exc_name, v.msg, st, v.attrs)
+                except Uninterpretable:
+                    pass
+        elif self.current_exc is not None:
+            raise self.current_exc
+        raise InterpRaise(name, msg, st)
 
     def s_FunctionDef(self, st, f):
         f.store(st.name, FuncVal(f.rel, st, f.all_locals()))
@@ -1299,6 +1377,23 @@ def _has_sym(v):
     return isinstance(v, (SymPos, LocExpr, Unknown, SymPosMix))
 
 
+def _is_generator(fn):
+    c = getattr(fn, '_is_gen', None)
+    if c is None:
+        c = False
+        stack = list(fn.body)
+        while stack:
+            n = stack.pop()
+            if isinstance(n, (ast.Yield, ast.YieldFrom)):
+                c = True
+                break
+            if isinstance(n, (ast.FunctionDef, ast.AsyncFunctionDef, ast.Lambda, ast.ClassDef)):
+                continue
+            stack.extend(ast.iter_child_nodes(n))
+        fn._is_gen = c
+    return c
+
+
 class Frame(object):
     def __init__(self, rel, genv, local, closure=None, fv=None):
         self.rel = rel
@@ -1310,7 +1405,10 @@ class Frame(object):
 
     def lookup(self, interp, name):
         if name in self.local and name not in self.globals_decl:
-            return self.local[name]
+            v = self.local[name]
+            if isinstance(v, tuple) and len(v) == 3 and v[0] == 'lazy' and self.local is self.genv:
+                return interp.lookup_global(self.rel, name)
+            return v
         if name in self.closure:
             return self.closure[name]
         return interp.lookup_global(self.rel, name)
